@@ -257,6 +257,13 @@ class SimCost(object):
         run = CUR
         xt = tuple(float(v) for v in x)
         y = eval_model(self.spec, xt)
+        if run is None or run.observing:
+            # the harness is looking (an oracle asked mystic to evaluate a condition that calls the raw cost, e.g.
+            # GradientNormTolerance): answer purely -- no log entry, no simulated time, no fault
+            if isinstance(y, list):
+                import numpy
+                return numpy.array(y)
+            return y
         n = len(run.evals) + 1
         run.evals.append(EvalRec(n, run.task, run.owner, xt, y))   # the call has begun: it counts
         if run.cost_dt is not None:
@@ -306,6 +313,12 @@ def con_apply(spec, x):
             x = con_apply(s, x)
     elif fam == 'identity':
         pass
+    elif fam == 'relax':
+        # a contraction (NOT idempotent): halves the distance of x[i] to t; its only fixed point is x[i] == t,
+        # reached exactly after ~55 applications (used with or_, which re-applies a member to its own result)
+        t = p['t']
+        for i in p['idx']:
+            x[i] = t + (x[i] - t) * 0.5
     elif fam == 'measure_norm':
         # flattened product measure: per measure the weights are made non-negative and sum to one
         o = 0
